@@ -438,7 +438,12 @@ func (p *Prog) ModuleFuncDecls(fn func(pkg *packages.Package, fd *ast.FuncDecl, 
 func (p *Prog) ModuleSSAFuncs() []*ssa.Function {
 	var out []*ssa.Function
 	for f := range p.Funcs {
-		if f.Blocks == nil || f.Synthetic != "" && f.Origin() == nil {
+		if f.Blocks == nil {
+			continue
+		}
+		// synthetic functions are wrappers and thunks without source of their
+		// own, except instantiations and the bodies of range-over-func loops
+		if f.Synthetic != "" && f.Origin() == nil && !strings.HasPrefix(f.Synthetic, "range-over-func") {
 			continue
 		}
 		if inModule(f) {
